@@ -6,6 +6,7 @@ Used for `TypeToolObjectSetting.read`, which hands `text_data[b"EngineData"].val
 bytes given to the engine-data parser are no longer than the block the descriptor was read from (`findRaw_le`).
 -/
 import PsdVerif.Lemmas.Descriptor4
+import PsdVerif.Model.DescriptorRaw
 
 namespace PsdVerif.Descriptor
 open PsdVerif PsdVerif.Codec
@@ -352,17 +353,6 @@ theorem Block.dec_rawSize_inside {tb : Tables} {d : B} {p : Nat} {b : Block} {p'
   ⟨Block.dec_rawSize h (Block.dec_start h), Block.dec_inside h (Block.dec_start h)⟩
 
 /-! ### `text_data[b"EngineData"].value` -/
-
-/-- the bytes of the first item whose key equals `key`, when that item is a `RawData`; for any other class `.value`
-is not `bytes` (or the attribute does not exist) and `EngineData.frombytes` raises inside the `try` -/
-def findRaw (key : B) : Items → Option B
-  | [] => none
-  | (k, v) :: r =>
-    if k.bytes = key then
-      match v with
-      | .raw .rawData data => some data
-      | _ => none
-    else findRaw key r
 
 theorem findRaw_le {key : B} {items : Items} {data : B} (h : findRaw key items = some data) :
     data.length ≤ rawSizeItems items := by
